@@ -479,6 +479,16 @@ fn note_red(_id: usize) {
     }
 }
 
+/// wrapping sum with Default/Add as `Par::sum` needs them
+#[derive(Clone, Copy, Default, PartialEq, Eq, PartialOrd, Ord, Debug)]
+pub struct W64(pub i64);
+impl std::ops::Add for W64 {
+    type Output = W64;
+    fn add(self, o: W64) -> W64 {
+        W64(self.0.wrapping_add(o.0))
+    }
+}
+
 // ------------------------------------------------------------------ instrumented source
 
 pub struct Src {
@@ -553,6 +563,14 @@ pub enum Term {
     Cnt,
     Fe,
     Red(RedOp),
+    Sum,
+    Min,
+    Max,
+    Fold(i64, RedOp),
+    MinBy,
+    MaxBy,
+    MinKey(i64),
+    MaxKey(i64),
     Find(Cl),
     FindIx(Cl),
     First,
@@ -662,6 +680,21 @@ pub fn parse_case(line: &str) -> Case {
             "sub" => RedOp::Sub,
             _ => RedOp::Poly,
         }),
+        "sum" => Term::Sum,
+        "min" => Term::Min,
+        "max" => Term::Max,
+        "fold" => Term::Fold(p64(tt[1]), match tt[2] {
+            "add" => RedOp::Add,
+            "xor" => RedOp::Xor,
+            "min" => RedOp::Min,
+            "max" => RedOp::Max,
+            "sub" => RedOp::Sub,
+            _ => RedOp::Poly,
+        }),
+        "minby" => Term::MinBy,
+        "maxby" => Term::MaxBy,
+        "minkey" => Term::MinKey(p64(tt[1])),
+        "maxkey" => Term::MaxKey(p64(tt[1])),
         "find" => Term::Find(filf(&tt[1..])),
         "findix" => Term::FindIx(filf(&tt[1..])),
         "first" => Term::First,
